@@ -495,6 +495,56 @@ func c11Drain(c *core.Ctx, fn *an.Fn, resultsChan, remaining types.Object) {
 			drain = l
 		}
 	}
+	cleanCanon := "p4"
+	var viaGo *ast.GoStmt
+	if drain == nil {
+		// the drain loop may live in a named function started with `go drain(resultsChan, remaining, cleanup)`:
+		// the arguments are evaluated when the go statement runs, exactly like the captured variables of a literal
+		pkg := c.Prog.Pkg("ring")
+		fn.InspectDeep(func(n ast.Node) bool {
+			gs, ok := n.(*ast.GoStmt)
+			if !ok || drain != nil {
+				return true
+			}
+			var inFn *an.Fn
+			for _, l := range append([]*an.Fn{fn}, fn.AllLits()...) {
+				if an.InNode(l.Body(), gs) {
+					inFn = l // innermost last
+				}
+			}
+			if inFn == nil {
+				return true
+			}
+			fo, _ := an.Callee(inFn.Info(), gs.Call).(*types.Func)
+			if fo == nil || fo.Pkg() != pkg.Types {
+				return true
+			}
+			h := an.FnOf(c.Prog.ByPath, fo)
+			if h == nil || h.Decl == nil {
+				return true
+			}
+			sig := h.Obj.Type().(*types.Signature)
+			var rem, ch types.Object
+			cc := ""
+			for i, a := range gs.Call.Args {
+				if i >= sig.Params().Len() {
+					break
+				}
+				switch {
+				case inFn.ObjOf(a) == remaining:
+					rem = sig.Params().At(i)
+				case inFn.ObjOf(a) == resultsChan:
+					ch = sig.Params().At(i)
+				case fn.Canon(a) == "p4" || inFn.Canon(a) == "p4":
+					cc = fmt.Sprintf("p%d", i)
+				}
+			}
+			if rem != nil && ch != nil && cc != "" {
+				drain, remaining, resultsChan, cleanCanon, viaGo = h, rem, ch, cc, gs
+			}
+			return true
+		})
+	}
 	if drain == nil {
 		c.Viol("R2", "drain", fn.Pos(), "no deferred drain loop `for remaining > 0` found: late results would never be cleaned up")
 		return
@@ -502,7 +552,7 @@ func c11Drain(c *core.Ctx, fn *an.Fn, resultsChan, remaining types.Object) {
 	// it must be started from a defer
 	deferred := false
 	fn.InspectShallow(func(n ast.Node) bool {
-		if ds, ok := n.(*ast.DeferStmt); ok && an.InNode(ds, drain.Lit) {
+		if ds, ok := n.(*ast.DeferStmt); ok && ((drain.Lit != nil && an.InNode(ds, drain.Lit)) || (viaGo != nil && an.InNode(ds, viaGo))) {
 			deferred = true
 		}
 		return true
@@ -532,7 +582,7 @@ func c11Drain(c *core.Ctx, fn *an.Fn, resultsChan, remaining types.Object) {
 				dec = dg.Locate(x)
 			}
 		case *ast.CallExpr:
-			if drain.Canon(x.Fun) == "p4" {
+			if drain.Canon(x.Fun) == cleanCanon {
 				clean = dg.Locate(x)
 			}
 		}
@@ -1015,6 +1065,9 @@ func c11Trackers(c *core.Ctx) {
 			}
 			return true
 		})
-		c.Check(got == "len(t.waitingByZone) - maxUnavailableZones", "R9", "func=newZoneAwareResultTracker", f.Pos(), "minSuccessfulZones = "+got+" (zones present − tolerated unavailable zones)", 1)
+		// the clamp at zero may follow as an if, or be written with the max builtin
+		base := "len(t.waitingByZone) - maxUnavailableZones"
+		okMin := got == base || got == "max("+base+", 0)" || got == "max(0, "+base+")"
+		c.Check(okMin, "R9", "func=newZoneAwareResultTracker", f.Pos(), "minSuccessfulZones = "+got+" (zones present − tolerated unavailable zones)", 1)
 	}
 }
